@@ -171,6 +171,15 @@ def running_balance(ctx, rng, conn, case, mon):
     sel = rng.choice([s for s in SELECTIONS])
     targets, bidx = rng.choice(BALANCE_TARGETS)
     text = f'SELECT {targets} {sel}'
+    if rng.random() < 0.35:
+        # a statement that raises part-way through a scan in which it has evaluated balance for some rows comes first
+        failing = rng.choice(['SELECT balance, date_add(date, 99999999 * (year - 2019)) AS x', 'SELECT date, splitcomp(account, ":", 2) AS c, balance',
+                              'SELECT balance, account FROM OPEN ON 2019-06-01 WHERE str(number) ~ "("', 'SELECT account, last(balance) AS b, max(date_add(date, 99999999 * month)) AS m GROUP BY account'])
+        try:
+            conn.execute(failing).fetchall()
+            ctx.count('obs.failing_statement_did_not_fail')
+        except Exception:  # noqa: BLE001
+            ctx.count('obs.failed_statements_before_balance')
     mon.reset()
     rows = fetch(ctx, conn, text, case, mon)
     if rows is None:
@@ -346,7 +355,7 @@ def finalize(merged):
     c = merged['counters']
     reasons = []
     for k in ('obs.inventory_sum_cases', 'obs.homomorphism_cases', 'obs.function_relations', 'obs.partition_checks', 'obs.balance_cases', 'obs.balance_monitor_events',
-              'obs.balance_with_subquery_between', 'obs.twin_executions', 'obs.twin_selection_size.1', 'obs.twin_selection_size.3', 'obs.balance_references.2', 'obs.balance_references.3', 'obs.balance_in_condition_cases'):
+              'obs.balance_with_subquery_between', 'obs.failed_statements_before_balance', 'obs.twin_executions', 'obs.twin_selection_size.1', 'obs.twin_selection_size.3', 'obs.balance_references.2', 'obs.balance_references.3', 'obs.balance_in_condition_cases'):
         if c.get(k, 0) == 0:
             reasons.append(f'{k} == 0')
     return reasons
